@@ -1,2 +1,164 @@
-/- Oracle for C01 (stub: replaced when the property's model is built). -/
-def main : IO Unit := pure ()
+/-
+  Oracle for C01.  Replays the harness' lines:
+    A/S/P      architecture, source, program words
+    O onlydestregs inc=.. dec=.. rset=.. jz=..   the HDL was generated with the OnlyDestRegs
+                               optimisation from these recorded register sets (after P, before H)
+    H <sexp> | H err …        the emitted Verilog file set (a0 + p0 + p0rom), parsed by bmvh/vlog
+    T                          initialise: Isa.init; Vlog: Design.init + one clock with reset high; Rtl.reset
+    V in=.. iv=.. or=..        port stimulus, then one simulator step / one clock
+  and prints after every V line
+    X …   BMV.Isa.step            (compared with the Go VM's X line: simulator tie)
+    Y …   the emitted Verilog under BMV.Vlog.cycle   (the implementation's hardware)
+    Z …   BMV.Rtl.cycle           (compared with Y: HDL tie)
+  The harness' own X lines are consumed and not echoed.
+-/
+import BMV.Isa
+import BMV.Rtl
+import BMV.Lines
+import BMV.Vlog.Elab
+open BMV BMV.Bits BMV.Lines BMV.Vlog
+
+def parseMode (s : String) : Mode :=
+  if s = "vn" then .vn else if s = "hy" then .hy else .ha
+
+def parseArch (fs : List String) : Option Arch :=
+  match fs with
+  | [rs, r, n, m, l, o, mode, ws, ops] =>
+    let opl := (ops.drop 4).toString
+    some { rsize := nat! rs, r := nat! r, n := nat! n, m := nat! m, l := nat! l, o := nat! o,
+           mode := parseMode mode, wordSize := nat! ws,
+           ops := if opl = "" then [] else opl.splitOn "," }
+  | _ => none
+
+/-- indices of the observed signals of the flattened design -/
+structure Hw where
+  d : Design
+  clk : Nat
+  reset : Nat
+  pc : Nat
+  regs : List Nat
+  auxo : List Nat
+  oval : List (Option Nat)
+  irecv : List (Option Nat)
+  waitsm : Option Nat
+  inp : List Nat
+  ival : List Nat
+  orecv : List Nat
+
+structure St where
+  arch : Arch := { rsize := 8, r := 1, n := 0, m := 0, l := 0, o := 1, ops := [] }
+  prog : List Bits := []
+  vm : Option VmState := none
+  hw : Option Hw := none
+  hwErr : String := ""
+  hst : Option State := none
+  rtl : RtlState := {}
+  used : Option (List (String × List Nat)) := none     -- OnlyDestRegs: the sets the Go side recorded
+
+def joinN (l : List Nat) : String := ",".intercalate (l.map toString)
+def joinB (l : List Bool) : String := ",".intercalate (l.map fun b => if b then "1" else "0")
+
+def dump (s : VmState) : String :=
+  let d := s.deferred.mergeSort (· ≤ ·)
+  s!"X pc={s.pc} r={joinN s.regs} o={joinN s.outputs} ov={joinB s.outValid} ir={joinB s.inRecv} d={joinN d}"
+
+def dumpHw (tag : String) (pc : Nat) (regs auxo : List Nat) (ov ir : List Bool) (w : Bool) : String :=
+  s!"{tag} pc={pc} r={joinN regs} o={joinN auxo} ov={joinB ov} ir={joinB ir} w={if w then 1 else 0}"
+
+def bools (s : String) : List Bool := (commaList s).map (· == "1")
+def nats (s : String) : List Nat := (commaList s).map nat!
+
+def mkHw (a : Arch) (line : String) : R Hw := do
+  let d ← Design.ofString line (some "a0")
+  let clk ← d.sigIdx "clock_signal"
+  let reset ← d.sigIdx "reset_signal"
+  d.checkClock clk
+  let p := "p0_instance."
+  let pc ← d.sigIdx (p ++ "_pc")
+  let regs ← (List.range (2 ^ a.r)).mapM fun k => d.sigIdx (p ++ s!"_r{k}")
+  let auxo ← (List.range a.m).mapM fun k => d.sigIdx (p ++ s!"_auxo{k}")
+  let oval := (List.range a.m).map fun k => d.sigIdx? (p ++ s!"o{k}_val")
+  let irecv := (List.range a.n).map fun k => d.sigIdx? (p ++ s!"i{k}_recv")
+  let inp ← (List.range a.n).mapM fun k => d.sigIdx s!"i{k}"
+  let ival ← (List.range a.n).mapM fun k => d.sigIdx s!"i{k}_valid"
+  let orecv ← (List.range a.m).mapM fun k => d.sigIdx s!"o{k}_received"
+  pure { d, clk, reset, pc, regs, auxo, oval, irecv, waitsm := d.sigIdx? (p ++ "waitsm"), inp, ival, orecv }
+
+def hwDump (h : Hw) (st : State) : String :=
+  dumpHw "Y" (st.get h.pc) (h.regs.map st.get) (h.auxo.map st.get)
+    (h.oval.map fun o => match o with | some i => st.get i != 0 | none => false)
+    (h.irecv.map fun o => match o with | some i => st.get i != 0 | none => false)
+    (match h.waitsm with | some i => st.get i != 0 | none => false)
+
+/-- registers the processes `oK_val` / `iK_recv` / `waitsm` exist only if some opcode declares them -/
+def rtlDump (h : Option Hw) (s : RtlState) : String :=
+  let has (f : Hw → List (Option Nat)) (k : Nat) : Bool := match h with
+    | some hw => ((f hw).getD k none).isSome
+    | none => true
+  dumpHw "Z" s.pc s.regs s.auxo
+    ((List.range s.oVal.length).map fun k => has (fun hw => hw.oval) k && s.oVal.getD k false)
+    ((List.range s.iRecv.length).map fun k => has (fun hw => hw.irecv) k && s.iRecv.getD k false)
+    ((match h with | some hw => hw.waitsm.isSome | none => true) && s.waitsm)
+
+def step (st : St) (line : String) : St × List String :=
+  if line.startsWith "H " then
+    if line.startsWith "H err" then ({ st with hw := none, hwErr := line }, [line])
+    else match mkHw st.arch (line.drop 2).toString with
+      | .ok h => ({ st with hw := some h, hwErr := "" }, ["H ok"])
+      | .error e => ({ st with hw := none, hwErr := e }, ["H rejected " ++ e])
+  else
+  let fs := fields line
+  match fs with
+  | "A" :: rest =>
+    match parseArch rest with
+    | some a => ({ arch := a }, [line])   -- also clears `used`
+    | none => (st, ["bad-arch"])
+  | "S" :: _ => (st, [line])
+  | "O" :: _ :: sets =>
+    let used := sets.map fun f => match f.splitOn "=" with
+      | [op, regs] => (op, nats regs)
+      | _ => ("?", [])
+    -- the model's idea of what the assembler records, compared as sets
+    let same := used.all fun (op, regs) =>
+      let mine := Rtl.destRegs st.arch st.prog op
+      regs.all (fun r => mine.contains r) && mine.all (fun r => regs.contains r)
+    ({ st with used := some used }, [if same then "O ok" else "O destregs-differ " ++ line])
+  | "P" :: "err" :: _ => ({ st with vm := none }, [line])
+  | "P" :: ws => ({ st with prog := ws.map ofString01 }, [line])
+  | "T" :: _ =>
+    let hst : Option State := match st.hw with
+      | none => none
+      | some h => match (do let s0 ← h.d.init; h.d.cycle h.clk s0 [(h.reset, 1)]) with
+        | .ok s => some s
+        | .error _ => none
+    ({ st with vm := some (Isa.init st.arch), hst, rtl := Rtl.reset st.arch }, [line])
+  | "V" :: rest =>
+    let ins := nats ((kv rest "in").getD "")
+    let iv := bools ((kv rest "iv").getD "")
+    let orc := bools ((kv rest "or").getD "")
+    -- simulator model
+    let (vm', xl) := match st.vm with
+      | none => (none, "X fail")
+      | some vm =>
+        match Isa.step st.arch st.prog { vm with inputs := ins, inValid := iv, outRecv := orc } with
+        | some vm2 => (some vm2, dump vm2)
+        | none => (none, "X fail")
+    -- emitted hardware under the Verilog semantics
+    let (hst', yl) := match st.hw, st.hst with
+      | some h, some s =>
+        let inputs := [(h.reset, 0)] ++ (h.inp.zip ins) ++ (h.ival.zip (iv.map fun b => if b then 1 else 0))
+          ++ (h.orecv.zip (orc.map fun b => if b then 1 else 0))
+        match h.d.cycle h.clk s inputs with
+        | .ok s2 => (some s2, hwDump h s2)
+        | .error e => (none, "Y fail " ++ e)
+      | _, _ => (none, "Y none")
+    -- hardware model
+    let p : PortsIn := { inputs := ins, inValid := iv, outRecv := orc }
+    let rtl' := match st.used with
+      | none => Rtl.cycle st.arch st.prog st.rtl p
+      | some u => Rtl.cycleOpt st.arch (fun op => (u.lookup op).getD []) st.prog st.rtl p
+    ({ st with vm := vm', hst := hst', rtl := rtl' }, [line, xl, yl, rtlDump st.hw rtl'])
+  | _ => (st, [])
+
+def main : IO Unit := do
+  let _ ← foldStdin ({} : St) step
